@@ -23,6 +23,12 @@ Definition check_case (c : opts * top * top * Z) : bool :=
   let m := code (top_eq New o x y) in
   (m =? 99) || (m =? obs).
 
+(* the same against the code after C05-fix-1..5 and before C05-fix2-1..2 *)
+Definition check_case_mid (c : opts * top * top * Z) : bool :=
+  let '(o, x, y, obs) := c in
+  let m := code (top_eq Mid o x y) in
+  (m =? 99) || (m =? obs).
+
 (* the same against the code as it was before the repairs *)
 Definition check_case_old (c : opts * top * top * Z) : bool :=
   let '(o, x, y, obs) := c in
